@@ -21,6 +21,22 @@ class Escape(BaseException):
     BaseException so that `except Exception` in the code under test cannot swallow it."""
 
 
+_PROXY_NAMES = ("SymEnum", "SymStr", "SymBytes", "SymInt", "SymBool", "SymRope", "SymReal", "HexView", "_Stand", "SymPath")
+
+
+def check_leak(e):
+    """call from every harness-level `except Exception` around code under test: an ordinary exception whose text names a proxy class means
+    a symbolic value reached code that cannot handle it (typically a C function raising TypeError).  The code under test would then
+    behave differently from a concrete run, so the path must not count as explored: turn it into a loud Escape (-> inconclusive)."""
+    if ENG is None:
+        return
+    if isinstance(e, (TypeError, AttributeError, ValueError)):
+        msg = str(e)
+        for n in _PROXY_NAMES:
+            if n in msg:
+                raise Escape("proxy leaked into code that cannot handle it: %s: %s" % (type(e).__name__, msg[:200])) from e
+
+
 class Inconclusive(BaseException):
     """solver said unknown / resource bound hit"""
 
